@@ -24,7 +24,27 @@ PRIVATE = ["h1", "q", "tick-n"]
 WRAPPERS = ["wif", "wifx", "w0", "erw"]
 WRAPPER_FREE = {"wif": ["it"], "wifx": ["it", "x"], "w0": [], "erw": []}
 LEAK_SIG = "closed:sc-free-names:macro-library-binding-visible"
+# round 3: auxiliary-syntax LITERALS.  Every library also defines (unless visible through its imports) and may export/rename/re-export
+#   lit                   its own auxiliary keyword (a macro answering a tagged value, so that (lit) is a safe probe)
+#   (mlit x)              syntax-rules with literals (lit else =>): which literal x matches, (v14lit <lib> lit|else|=>|no)
+#   (elit x)              er-macro-transformer doing the same with (compare x (rename 'lit)) ...
+# and may re-export (scheme base)'s else => ... _ unquote under other names ((export (rename else otherwise))).
+# The SPEC sees (scheme base) as library number 0 of every graph, exporting exactly these keywords.
+LITS = ["lit", "mlit", "elit"]
+MACRO_DEFS = ["m1"] + WRAPPERS + LITS
+KW = ["else", "=>", "...", "_", "unquote"]
+KW_ALIASES = ["otherwise", "then", "dots", "any", "unq"]
+SB = ("scheme", "base")
+SB_TAG = "scheme.base"
+SUPPORT = "(prefix (only (scheme base) cond case guard raise quote quasiquote list car let-syntax syntax-rules) c14:)"
+# probe key -> form; N is replaced by the name under test (never in operator position)
+LIT_PROBES = ["ce", "ca", "se", "sa", "ge", "ga", "el", "us", "uq"]
 MODS = ("only", "except", "rename", "prefix", "drop-prefix")
+# importer kinds of the driver process (the module table is one per process, whoever imports)
+IMPORTER_KINDS = ["interaction", "load-file", "load-port", "include"]
+# second standard environments, made at the end of a top-level program (making one resets chibi's global exception handler: guard in the
+# program stops catching afterwards, so nothing that may raise follows)
+STD_KINDS = ["sre7-load-file", "sre5-load-port", "sre7-twice", "sre7-include"]
 
 
 # ----------------------------------------------------------------------------- import sets (python side)
@@ -136,7 +156,7 @@ class Lib:
         return ".".join(self.name)
 
     def graph_sexp(self):
-        return "(%s (%s) (%s) (%s))" % (iset_str(("lib", self.name)), " ".join(iset_str(i) for i in self.imports),
+        return "(%s (%s) (%s) (%s))" % (iset_str(("lib", self.name)), " ".join(iset_str(i) for i in [("lib", SB)] + self.imports),
                                          " ".join(self.defs + ["tick-n"]),
                                          " ".join("(%s %s)" % (e, m) for e, m in self.exports))
 
@@ -161,16 +181,29 @@ class Lib:
         if "erw" in self.defs:
             body.append("(define-syntax erw (er-macro-transformer (lambda (form rename compare) (if %s "
                         "`(,(rename 'let) ((,(rename 'tmp) 1)) ,(car (cddr form))) `(,(rename 'quote) (v14mac %s erw))))))" % (ok, t))
+        if "lit" in self.defs:
+            body.append("(define-syntax lit (syntax-rules () ((_ . r) '(v14mac %s lit))))" % t)
+        if "mlit" in self.defs:
+            body.append("(define-syntax mlit (syntax-rules (lit else =>) ((_ lit) '(v14lit %s lit)) ((_ else) '(v14lit %s else)) ((_ =>) '(v14lit %s =>)) "
+                        "((_ x) '(v14lit %s no)) ((_ . r) '(v14mac %s mlit))))" % (t, t, t, t, t))
+        if "elit" in self.defs:
+            body.append("(define-syntax elit (er-macro-transformer (lambda (form rename compare) (if (and (pair? (cdr form)) (null? (cddr form))) "
+                        "(list (rename 'quote) (list 'v14lit '%s (cond ((compare (cadr form) (rename 'lit)) 'lit) ((compare (cadr form) (rename 'else)) 'else) "
+                        "((compare (cadr form) (rename '=>)) '=>) (else 'no)))) (list (rename 'quote) '(v14mac %s elit))))))" % (t, t))
         for d in self.defs:
-            if d not in ("tick", "ctr", "m1") and d not in WRAPPERS:
+            if d not in ("tick", "ctr") and d not in MACRO_DEFS:
                 body.append("(define %s (list 'v14val '%s '%s))" % (d, t, d))
-        chibi = " (only (chibi) sc-macro-transformer er-macro-transformer make-syntactic-closure)" if any(w in self.defs for w in WRAPPERS) else ""
+        chibi = " (only (chibi) sc-macro-transformer er-macro-transformer make-syntactic-closure)" if any(w in self.defs for w in WRAPPERS + ["elit"]) else ""
         return "(define-library (%s)\n  (export %s)\n  (import (scheme base)%s%s)\n  (begin\n    %s))\n" % (
             " ".join(self.name), ex, chibi, "".join(" " + iset_str(i) for i in self.imports), "\n    ".join(body))
 
 
+def sb_graph_sexp():
+    return "((scheme base) () (%s) (%s))" % (" ".join(KW), " ".join("(%s %s)" % (k, k) for k in KW))
+
+
 def gen_graph(rng, gid, nlibs):
-    libs, world = [], {}
+    libs, world = [], {SB: [(k, k) for k in KW]}
     for j in range(nlibs):
         name = ("v14", gid, "l%d" % j)
         imports, visible = [], []
@@ -191,10 +224,10 @@ def gen_graph(rng, gid, nlibs):
             defs += ["tick", "ctr"]
         if "m1" not in visible:
             defs.append("m1")
-        for w in WRAPPERS:
+        for w in WRAPPERS + LITS:
             if w not in visible:
                 defs.append(w)
-        cands = [d for d in defs if d not in ("h1", "q")] + [n for n in dict.fromkeys(visible) if n not in defs and n not in PRIVATE]
+        cands = [d for d in defs if d not in ("h1", "q")] + [n for n in dict.fromkeys(visible) if n not in defs and n not in PRIVATE and n not in KW]
         chosen = rng.sample(cands, min(len(cands), rng.randint(3, 10)))
         sc = [c for c in cands if c in ("wif", "wifx")]
         if sc and not any(c in sc for c in chosen) and rng.random() < 0.6:
@@ -203,13 +236,20 @@ def gen_graph(rng, gid, nlibs):
         for m in chosen:
             e = m
             if rng.random() < 0.35:
-                e = rng.choice(NAMES + EXTRA_TARGETS + [c for c in chosen])        # may swap with another export
+                e = rng.choice(NAMES + EXTRA_TARGETS + [c for c in chosen if c not in KW])        # may swap with another export
             if e in used:
                 e = m
             if e in used:
                 continue
             used.add(e)
             exports.append((e, m))
+        if rng.random() < 0.45:
+            # re-export auxiliary syntax of (scheme base): (export else) / (export (rename else otherwise))
+            for k in rng.sample(KW, rng.randint(1, 3)):
+                e = k if rng.random() < 0.3 else rng.choice(KW_ALIASES + NAMES[:3] + ["p:" + k])
+                if e not in used and e not in visible and e not in defs and (e == k or e not in KW):
+                    used.add(e)
+                    exports.append((e, k))
         lib = Lib(name, imports, defs, exports)
         libs.append(lib)
         world[name] = exports
@@ -218,12 +258,14 @@ def gen_graph(rng, gid, nlibs):
 
 def py_origin(libs, world, lib, m, fuel=8):
     """generator-side guess of the definition behind internal name m of library lib (shapes inputs only)"""
+    if tuple(lib) == SB:
+        return (SB, m) if m in KW else None
     L = next((l for l in libs if l.name == lib), None)
     if L is None or fuel == 0:
         return None
     if m in L.defs:
         return (lib, m)
-    for i in L.imports:
+    for i in [("lib", SB)] + L.imports:
         for n, mm in (py_denote(world, i) or []):
             if n == m:
                 return py_origin(libs, world, iset_lib(i), mm, fuel - 1)
@@ -266,7 +308,108 @@ def gen_closed_case(rng, libs, world):
     stacks = [[m] for m in macs[:4]]
     for _ in range(rng.choice([1, 2, 2])):
         stacks.append([rng.choice(macs) for _ in range(rng.choice([2, 2, 3]))])
-    return dict(kind="envsc", isets=isets, names=_candidates(rng, world, isets), stacks=stacks)
+    return dict(kind="envsc", isets=isets, names=_candidates(rng, world, isets, libs=libs), stacks=stacks)
+
+
+def gen_kw_iset(rng, libs, world, plain_too=False):
+    """an import set that delivers auxiliary-syntax keywords under (mostly) other names: (scheme base) itself or a library re-exporting
+    keywords, under 1-3 modifiers.  plain_too: the program also imports the plain (scheme base) (top-level programs, whose own probe
+    code uses cond/else): then no keyword NAME may come to denote another keyword (swaps)"""
+    reexp = [L for L in libs if any((py_origin(libs, world, L.name, m) or ((), ""))[0] == SB for _, m in L.exports)]
+    for _ in range(30):
+        base = rng.choice(reexp).name if reexp and rng.random() < 0.4 else SB
+        i = ("lib", base)
+        if base == SB and rng.random() < 0.5:
+            i = ("only", i, rng.sample(KW, rng.randint(2, 5)))
+        for _ in range(rng.choice([1, 1, 2, 3])):
+            vis = [n for n, m in (py_denote(world, i) or []) if (py_origin(libs, world, iset_lib(i), m) or ((), ""))[0] == SB]
+            k = rng.choice(["rename", "rename", "prefix", "prefix", "only", "except", "drop-prefix"])
+            if k == "rename" and vis:
+                srcs = rng.sample(vis, min(len(vis), rng.randint(1, 3)))
+                prs = [(a, rng.choice(KW_ALIASES + NAMES + EXTRA_TARGETS)) for a in srcs]
+                if len(prs) >= 2 and rng.random() < 0.25:
+                    prs[1] = (prs[1][0], prs[0][0])
+                    prs[0] = (prs[0][0], prs[1][0])              # swap: (else =>) (=> else)
+                i = ("rename", i, prs)
+            elif k == "prefix":
+                i = ("prefix", i, rng.choice(PREFIXES))
+            elif k == "only" and vis:
+                i = ("only", i, rng.sample(vis, min(len(vis), rng.randint(1, 3))))
+            elif k == "except" and vis:
+                i = ("except", i, rng.sample(vis, min(len(vis), rng.randint(0, 2))))
+            elif k == "drop-prefix":
+                names = [n for n, _ in (py_denote(world, i) or [])]
+                good = [q for q in PREFIXES if any(n.startswith(q) and len(n) > len(q) for n in names)]
+                if good:
+                    i = ("drop-prefix", i, rng.choice(good))
+        vis = [n for n, _ in (py_denote(world, i) or [])]
+        # (two keywords under ONE visible name are "an error" in R7RS and which one wins depends on the order of (scheme base)'s own
+        #  export list, which the SPEC's world does not know: never generated, at any nesting level -- see distinct_all)
+        if vis and iset_depth(i) >= 1 and distinct_all(world, i) and (not plain_too or all(m == n for n, m in py_denote(world, i) if n in KW)):
+            return i
+    return ("rename", ("lib", SB), [("else", "otherwise")])
+
+
+def distinct_all(world, i):
+    while True:
+        vis = [n for n, _ in (py_denote(world, i) or [])]
+        if len(set(vis)) != len(vis):
+            return False
+        if i[0] == "lib":
+            return True
+        i = i[1]
+
+
+def gen_lit_case(rng, libs, world):
+    """a program importing auxiliary keywords under other names next to import sets over the generated libraries (which deliver lit/mlit/elit
+    and ordinary bindings); every candidate name is probed in LITERAL position of cond/case/guard, of a local syntax-rules macro (ellipsis,
+    underscore), of quasiquote, and of every visible mlit/elit"""
+    isets = [gen_kw_iset(rng, libs, world) for _ in range(rng.choice([1, 1, 2]))]
+    for _ in range(rng.choice([1, 2, 2])):
+        isets.insert(rng.randrange(len(isets) + 1), gen_iset(rng, world, rng.choice(libs).name, rng.choice([0, 0, 1, 2, 3]), err=0.0))
+    return dict(kind="lit", isets=isets, **lit_plan(rng, libs, world, isets))
+
+
+def py_class(libs, world, isets, n):
+    """generator-side guess of what a visible name is: a keyword, 'var', 'macro', 'U' or 'A' (bound by two import sets: not probed where
+    the probe would evaluate it).  Only decides WHICH probes are run for the name; verdicts come from the SPEC origin."""
+    found = set()
+    for i in isets:
+        for a, m in (py_denote(world, i) or []):
+            if a == n:
+                o = py_origin(libs, world, iset_lib(i), m)
+                found.add("U" if o is None else (o[1] if tuple(o[0]) == SB else ("macro" if o[1] in MACRO_DEFS else "var")))
+    if not found:
+        return "U"
+    return found.pop() if len(found) == 1 else "A"
+
+
+def lit_plan(rng, libs, world, isets, limit=30):
+    names = _candidates(rng, world, isets, limit=limit, libs=libs, keep_kw=True)
+    names = list(dict.fromkeys(names))
+    mls = []
+    for i in isets:
+        for n, m in (py_denote(world, i) or []):
+            o = py_origin(libs, world, iset_lib(i), m)
+            if o and o[1] in ("mlit", "elit") and n not in mls and py_class(libs, world, isets, n) == "macro":
+                mls.append(n)
+    plan = []
+    for n in names:
+        c = py_class(libs, world, isets, n)
+        ks = ["el", "uq"]
+        if c != "...":
+            ks.append("us")
+        if c in ("else", "var", "U"):
+            ks += ["ce", "se", "ge"]
+        if c in ("=>", "var", "U"):
+            ks += ["ca", "sa", "ga"]
+        plan.append((n, [k for k in LIT_PROBES if k in ks]))
+    return dict(names=names, plan=plan, mls=mls[:4])
+
+
+def lit_case_text(n, c):
+    return "(lit %d (%s) (%s) (%s))" % (n, " ".join(iset_str(i) for i in c["isets"]),
+                                       " ".join("(%s %s)" % (sym(x), " ".join(ks)) for x, ks in c["plan"]), " ".join(sym(m) for m in c["mls"]))
 
 
 def template(stack):
@@ -279,7 +422,7 @@ def template(stack):
 def tiny_graph(gid):
     """the 4-name library of the grammar-complete enumeration (thorough), with a renamed export and a swap"""
     l0 = Lib(("v14", gid, "l0"), [], ["a", "b", "ab", "p:a"] + FIXED_DEFS, [("a", "b"), ("b", "a"), ("ab", "ab"), ("p:a", "p:a")])
-    return [l0], {l0.name: l0.exports}
+    return [l0], {SB: [(k, k) for k in KW], l0.name: l0.exports}
 
 
 def enum_isets(world, lib, depth):
@@ -322,7 +465,7 @@ def norm(d):
         return ("str", str(d))
     if isinstance(d, G.Sym):
         s = str(d)
-        return "" if s == "||" else s
+        return s[1:-1] if len(s) >= 2 and s[0] == "|" and s[-1] == "|" else s
     return d
 
 
@@ -385,9 +528,11 @@ def run_driver(d, moddir, casefile, timeout=300):
         rc, err = "TIMEOUT", ""
     res, bodies, done = {}, [], False
     for line in out.split("\n"):
+        if done:
+            break        # (after an error caught from inside a macro transformer the pinned chibi re-runs the program tail at exit: ignore it)
         if line.startswith("CASE "):
             sp = line.index(" ", 5)
-            res[int(line[5:sp])] = line[sp + 1:]
+            res.setdefault(int(line[5:sp]), line[sp + 1:])
         elif line.startswith("BODY "):
             bodies.append(line[5:].strip())
         elif line == "DONE":
@@ -415,6 +560,7 @@ def run(ctx):
     rng = ctx.rng
     thorough = ctx.thorough
     n_graphs, n_env, n_res, n_sc = (36, 26, 14, 6) if not thorough else (400, 60, 30, 16)
+    n_imp, n_lit = (4, 4) if not thorough else (10, 10)
     ctx.cov["rule"] = ("outer: generated library graphs (1-6 libraries; exports with (rename a b) incl. swaps; libraries importing and re-exporting "
                        "through their own import sets; every body prints once and owns a counter; a macro expanding into a private helper) are written "
                        "to a scratch module directory; per graph one chibi process builds environments from import sets of nesting depth 0-4 "
@@ -469,7 +615,7 @@ def run(ctx):
         cases = gr["cases"]
         if gr["kind"] == "enum":
             for i in enum_isets(world, libs[0].name, 2):
-                cases.append(dict(kind="env", isets=[i], names=_candidates(rng, world, [i], limit=40)))
+                cases.append(dict(kind="env", isets=[i], names=_candidates(rng, world, [i], limit=40, libs=libs)))
                 cases.append(dict(kind="resolve", text=iset_str(i), iset=i))
         else:
             for c in range(n_env):
@@ -477,7 +623,16 @@ def run(ctx):
                 isets = [gen_iset(rng, world, rng.choice(libs).name, depth, err=0.12)]
                 if rng.random() < 0.2:
                     isets.append(gen_iset(rng, world, rng.choice(libs).name, rng.choice([0, 1, 2]), err=0.0))
-                cases.append(dict(kind="env", isets=isets, names=_candidates(rng, world, isets)))
+                cases.append(dict(kind="env", isets=isets, names=_candidates(rng, world, isets, libs=libs)))
+            # round 3: the same import sets brought in by OTHER kinds of importer, in the driver's own top-level environment, under a prefix
+            # that is unique to the case: (eval '(import ...) (interaction-environment)), (load file env), (load port env), (include file)
+            for c in range(n_imp):
+                kind = rng.choice(IMPORTER_KINDS)
+                pfx = "k%d%s:" % (len(cases), kind[0])
+                isets = [("prefix", gen_iset(rng, world, rng.choice(libs).name, rng.choice([0, 1, 1, 2, 3]), err=0.08), pfx)]
+                cases.append(dict(kind="env", importer=kind, isets=isets, names=_candidates(rng, world, isets, libs=libs, limit=20)))
+            for c in range(n_lit):
+                cases.append(gen_lit_case(rng, libs, world))
             for c in range(n_sc):
                 cc = gen_closed_case(rng, libs, world)
                 if cc:
@@ -515,25 +670,39 @@ def run(ctx):
             gr["ldefs"] = ldefs
             gr["lreqs"] = [rng.choice(list(range(nl)) + [9]) for _ in range(rng.randint(4, 8))]
             for q in gr["lreqs"]:
-                cases.append(dict(kind="load", lib=q))
+                cases.append(dict(kind="load", lib=q, importer="environment" if q == 9 else rng.choice(["environment"] + IMPORTER_KINDS)))
             # one top-level (import ...) per process, last
             cc = gen_closed_case(rng, libs, world) if rng.random() < 0.7 else None
             if cc:
                 cases.append(dict(kind="top", isets=cc["isets"], names=cc["names"], stacks=cc["stacks"]))
             else:
                 i = gen_iset(rng, world, rng.choice(libs).name, rng.choice([1, 2, 3]), err=0.0)
-                cases.append(dict(kind="top", isets=[i], names=_candidates(rng, world, [i]), stacks=[]))
+                cases.append(dict(kind="top", isets=[i], names=_candidates(rng, world, [i], libs=libs), stacks=[]))
+            top = cases[-1]
+            if rng.random() < 0.6:
+                # literal probes at the top level of a program: keywords imported under other names next to the plain (scheme base)
+                top["isets"] = top["isets"] + [gen_kw_iset(rng, libs, world, plain_too=True)]
+                bad = kw_visible(libs, world, top["isets"])
+                top["names"] = [x for x in top["names"] if x not in bad]
+                top["lit"] = lit_plan(rng, libs, world, [("lib", SB)] + top["isets"], limit=24)
+            # second standard environments (b3): import sets loaded into (scheme-report-environment n) at the END of the program
+            top["std"] = [dict(how=h, isets=[gen_iset(rng, world, rng.choice(libs).name, rng.choice([0, 0, 1, 2]), err=0.0)])
+                          for h in rng.sample(STD_KINDS, 2)]
 
     # ------------------------------------------------------------------ oracle: one batch per model
     spec_req, gen_req = [], []
     for gr in graphs:
-        spec_req.append("graph " + " ".join(l.graph_sexp() for l in gr["libs"]))
+        spec_req.append("graph " + sb_graph_sexp() + " " + " ".join(l.graph_sexp() for l in gr["libs"]))
+        gr["inside_ix"] = {}
+        for l in gr["libs"]:
+            gr["inside_ix"][l.tag] = len(spec_req)
+            spec_req.append("inside %s (lit else =>)" % iset_str(("lib", l.name)))
         gen_req.append("world " + " ".join("(%s (%s))" % (iset_str(("lib", l.name)), " ".join(
             sym(e) if e == m else "(%s . %s)" % (sym(e), sym(m)) for e, m in l.exports)) for l in gr["libs"]))
         if "ldefs" in gr:
             gr["hist_ix"] = len(spec_req)
             spec_req.append("history (%s) (%s)" % (" ".join("(%d (%s))" % (j, " ".join(map(str, imps))) for j, imps in gr["ldefs"].items()),
-                                                   " ".join(map(str, gr["lreqs"]))))
+                                                   " ".join("(%s %d)" % (c["importer"], c["lib"]) for c in gr["cases"] if c["kind"] == "load")))
         for c in gr["cases"]:
             if c["kind"] == "load":
                 continue
@@ -541,6 +710,22 @@ def run(ctx):
                 c["spec_ix"] = len(spec_req)
                 spec_req.append("frames (%s)" % " ".join(iset_str(i) for i in c["isets"]))
                 continue
+            if c["kind"] == "lit" or c.get("lit"):
+                lp = c if c["kind"] == "lit" else c["lit"]
+                li = " ".join(iset_str(i) for i in (c["isets"] if c["kind"] == "lit" else [("lib", SB)] + c["isets"]))
+                lp["origin_ix"] = len(spec_req)
+                spec_req.append("origin (%s) (%s)" % (li, " ".join(sym(n) for n in lp["names"])))
+                lp["ml_ix"] = len(spec_req)
+                spec_req.append("origin (%s) (%s)" % (li, " ".join(sym(n) for n in lp["mls"])))
+                lp["ideq_ix"] = len(spec_req)
+                spec_req.append("ideq (%s) (%s) (%s)" % (li, " ".join(sym(n) for n in lp["mls"]), " ".join(sym(n) for n in lp["names"])))
+                if c["kind"] == "lit":
+                    continue
+            for sd in c.get("std", []):
+                sd["spec_ix"] = len(spec_req)
+                sd["names"] = [n for n, _ in (py_denote(gr["world"], sd["isets"][0]) or [])]
+                sd["names"] = list(dict.fromkeys(sd["names"]))
+                spec_req.append("origin (%s) (%s)" % (" ".join(iset_str(i) for i in sd["isets"]), " ".join(sym(n) for n in sd["names"])))
             if c["kind"] in ("env", "top", "envsc"):
                 c["spec_ix"] = len(spec_req)
                 spec_req.append("origin (%s) (%s)" % (" ".join(iset_str(i) for i in c["isets"]), " ".join(sym(n) for n in c["names"])))
@@ -583,13 +768,23 @@ def run(ctx):
             for n, c in enumerate(gr["cases"]):
                 if c["kind"] == "top":
                     continue
-                if c["kind"] == "env":
+                if c["kind"] == "env" and c.get("importer"):
+                    ifile = os.path.join(moddir, "imp_%s_%d.scm" % (gr["gid"], n))
+                    open(ifile, "w").write("(import %s)\n" % " ".join(iset_str(i) for i in c["isets"]))
+                    fh.write("(env %d (%s) (%s) %s \"%s\")\n" % (n, " ".join(iset_str(i) for i in c["isets"]), " ".join(sym(x) for x in c["names"]), c["importer"], ifile))
+                elif c["kind"] == "lit":
+                    fh.write(lit_case_text(n, c) + "\n")
+                elif c["kind"] == "env":
                     fh.write("(env %d (%s) (%s))\n" % (n, " ".join(iset_str(i) for i in c["isets"]), " ".join(sym(x) for x in c["names"])))
                 elif c["kind"] == "envsc":
                     fh.write("(envsc %d (%s) (%s) (%s))\n" % (n, " ".join(iset_str(i) for i in c["isets"]), " ".join(sym(x) for x in c["names"]),
                                                               " ".join(template(l["stack"]) for l in c["live"])))
                 elif c["kind"] == "frames":
                     fh.write("(frames %d (%s))\n" % (n, " ".join(iset_str(i) for i in c["isets"])))
+                elif c["kind"] == "load" and c.get("importer", "environment") != "environment":
+                    ifile = os.path.join(moddir, "impc_%s_%d.scm" % (gr["gid"], c["lib"]))
+                    open(ifile, "w").write("(import (v14 %s c%d))\n" % (gr["gid"], c["lib"]))
+                    fh.write("(load %d (v14 %s c%d) %s \"%s\")\n" % (n, gr["gid"], c["lib"], c["importer"], ifile))
                 elif c["kind"] == "load":
                     fh.write("(load %d (v14 %s c%d))\n" % (n, gr["gid"], c["lib"]))
                 elif c["kind"] == "resolve":
@@ -626,6 +821,9 @@ def run(ctx):
             if c["kind"] == "frames":
                 _judge_frames(ctx, d, moddir, gr, c, got, spec_out[c["spec_ix"]])
                 continue
+            if c["kind"] == "lit":
+                _judge_lit(ctx, d, moddir, gr, c, c, got, spec_out, False)
+                continue
             if c["kind"] == "envsc":
                 _judge_closed(ctx, d, moddir, gr, c, got, spec_out[c["spec_ix"]].split(" "), libs, ticks, needed)
                 continue
@@ -649,13 +847,45 @@ def run(ctx):
                 continue
             prog = os.path.join(moddir, "top_%s_%d.scm" % (gr["gid"], n))
             probe = open(os.path.join(ROOT, "harness", "c14_driver.scm")).read().split(";;; BEGIN PROBE")[1].split(";;; END PROBE")[0]
-            open(prog, "w").write("(import (scheme base) (scheme write) (scheme eval) (scheme repl) %s)\n%s\n(c14-out %d (c14-probe (interaction-environment) '(%s)))\n"
-                                  "(c14-out %d (c14-probe-closed (interaction-environment) '(%s) '(%s)))\n(write-string \"DONE\\n\")\n" % (
-                " ".join(iset_str(i) for i in c["isets"]), probe, n, " ".join(sym(x) for x in c["names"]),
-                n, " ".join(template(l["stack"]) for l in c.get("live", [])), " ".join(sym(x) for x in c["names"])))
+            text = "(import (scheme base) (scheme write) (scheme eval) (scheme repl) (scheme load) (scheme file) (only (chibi) scheme-report-environment) %s %s)\n%s\n" % (
+                SUPPORT, " ".join(iset_str(i) for i in c["isets"]), probe)
+            text += "(c14-out %d (c14-probe (interaction-environment) '(%s)))\n" % (n, " ".join(sym(x) for x in c["names"]))
+            text += "(c14-out %d (c14-probe-closed (interaction-environment) '(%s) '(%s)))\n" % (
+                n, " ".join(template(l["stack"]) for l in c.get("live", [])), " ".join(sym(x) for x in c["names"]))
+            if c.get("lit"):
+                lp = c["lit"]
+                text += "(c14-out %d (c14-probe-lit (interaction-environment) '(%s) '(%s)))\n" % (
+                    900000 + n, " ".join("(%s %s)" % (sym(x), " ".join(ks)) for x, ks in lp["plan"]), " ".join(sym(m) for m in lp["mls"]))
+            text += "(write-string \"DONE\\n\")\n"
+            # second standard environments, last (no guard works after the first one is made): each loads a file whose first form imports
+            # a library this program has (mostly) already imported; only names the SPEC says are bound are evaluated
+            for k, sd in enumerate(c.get("std", [])):
+                so = spec_out[sd["spec_ix"]].split(" ")
+                sd["probe"] = []
+                if len(so) == len(sd["names"]) and "E" not in so:
+                    for nm, o in zip(sd["names"], so):
+                        if o.startswith("O:") and o.split(":", 2)[1] in libs:
+                            m = o.split(":", 2)[2]
+                            sd["probe"].append((nm, o, "(%s)" % sym(nm) if (m == "tick" or m in MACRO_DEFS) else sym(nm)))
+                sfile = os.path.join(moddir, "std_%s_%d_%d.scm" % (gr["gid"], n, k))
+                open(sfile, "w").write("(import %s)\n(define c14-std-r (let* (%s) (list %s)))\n" % (
+                    " ".join(iset_str(i) for i in sd["isets"]), " ".join("(c14v%d %s)" % (q, e) for q, (_, _, e) in enumerate(sd["probe"])),
+                    " ".join("c14v%d" % q for q in range(len(sd["probe"])))))
+                ver = 5 if sd["how"].startswith("sre5") else 7
+                ld = ("(call-with-input-file \"%s\" (lambda (in) (load in c14-sre%d)))" if "port" in sd["how"] else "(load \"%s\" c14-sre%d)")
+                text += "(define c14-sre%d (scheme-report-environment %d))\n%s\n(c14-out %d (eval 'c14-std-r c14-sre%d))\n" % (k, ver, ld % (sfile, k), 910000 + 10 * k, k)
+                if sd["how"] == "sre7-twice":
+                    text += "(define c14-sre%db (scheme-report-environment 7))\n(load \"%s\" c14-sre%db)\n(c14-out %d (eval 'c14-std-r c14-sre%db))\n" % (k, sfile, k, 910000 + 10 * k + 1, k)
+            text += "(write-string \"END\\n\")\n"
+            open(prog, "w").write(text)
             r = B.run_chibi(d, [prog], timeout=60, extra_env={"CHIBI_MODULE_PATH": os.path.join(d, "lib") + ":" + moddir})
             tb = [l[5:].strip() for l in r.stdout.split("\n") if l.startswith("BODY ")]
-            line = [l for l in r.stdout.split("\n") if l.startswith("CASE ")]
+            out_main = r.stdout.split("\nDONE\n")[0] if "\nDONE\n" in r.stdout else r.stdout
+            allcase = [l for l in r.stdout.split("\nEND\n")[0].split("\n") if l.startswith("CASE ")]
+            byid = {}
+            for l in allcase:
+                byid.setdefault(int(l.split(" ", 2)[1]), l.split(" ", 2)[2])
+            line = [l for l in out_main.split("\n") if l.startswith("CASE ") and int(l.split(" ", 2)[1]) < 900000]
             if line:
                 got = norm(parse_datum(line[0].split(" ", 2)[2])[0])
             elif r.returncode not in (0,) and "error" in (r.stderr or "").lower():
@@ -677,6 +907,20 @@ def run(ctx):
             elif c.get("live") and line:
                 ctx.violation("driver-died", input=open(prog).read()[-400:], observed="rc=%s %s" % (r.returncode, (r.stderr or "")[-300:]),
                               expected="the program runs to its end", replay="chibi-scheme %s (module dir %s)" % (prog, moddir))
+            if c.get("lit") and line:
+                if 900000 + n in byid:
+                    try:
+                        got3 = norm(parse_datum(byid[900000 + n])[0])
+                    except Exception as e:
+                        ctx.broken("correspondence:unreadable-output", "top program %s printed %r (%s)" % (prog, byid[900000 + n][:200], e))
+                        got3 = None
+                    if got3 is not None:
+                        _judge_lit(ctx, d, moddir, gr, c, c["lit"], got3, spec_out, True)
+                else:
+                    ctx.violation("driver-died", input=open(prog).read()[-400:], observed="rc=%s %s" % (r.returncode, (r.stderr or "")[-300:]),
+                                  expected="the program runs to its end", replay="chibi-scheme %s (module dir %s)" % (prog, moddir))
+            if line and "\nDONE\n" in r.stdout:
+                _judge_std(ctx, d, moddir, gr, c, byid, r, prog, libs, tticks, tneeded)
             _check_bodies(ctx, d, moddir, gr, libs, tb, tneeded, prog, top=True)
 
 
@@ -745,13 +989,29 @@ def _load_corpus():
     return out
 
 
-def _candidates(rng, world, isets, limit=34):
+def kw_visible(libs, world, isets):
+    """visible names that (by the generator's guess) some import set binds to an auxiliary keyword of (scheme base): such a name must never
+    be put in operator position or evaluated bare (the keyword's transformer raises, and an error caught from inside a macro transformer
+    corrupts the pinned chibi's exit path, notes/C14.md (e))"""
+    out = set()
+    for i in isets:
+        for n, m in (py_denote(world, i) or []):
+            o = py_origin(libs, world, iset_lib(i), m)
+            if o and tuple(o[0]) == SB:
+                out.add(n)
+    return out
+
+
+def _candidates(rng, world, isets, limit=34, libs=(), keep_kw=False):
     vis = []
+    bad = set() if keep_kw else (kw_visible(libs, world, isets) | set(KW))
     for i in isets:
         for n, _ in (py_denote(world, i) or []):
-            if n not in vis:
+            if n not in vis and n not in bad:
                 vis.append(n)
-    extra = list(NAMES) + ["tick", "ctr", "m1"] + PRIVATE + [""] + WRAPPERS
+    extra = list(NAMES) + ["tick", "ctr", "m1"] + PRIVATE + [""] + WRAPPERS + LITS
+    if keep_kw:
+        extra += KW + KW_ALIASES
     for i in isets:
         j = i
         while j[0] != "lib":
@@ -765,7 +1025,7 @@ def _candidates(rng, world, isets, limit=34):
     rng.shuffle(extra)
     names = list(vis)
     for n in extra:
-        if n not in names and len(names) < limit:
+        if n not in names and len(names) < limit and n not in bad:
             names.append(n)
     rng.shuffle(names)
     # probe the state-bearing names again at the end: a stale copy of ctr shows after the ticks
@@ -781,7 +1041,7 @@ def _expect_value(libs, ticks, lib, m):
         return ("v14ctr", lib, ticks[lib])
     if m == "m1":
         return ("v14mac", lib, "m1", ("v14val", lib, "h1"))
-    if m in WRAPPERS:
+    if m in WRAPPERS or m in LITS:
         return ("v14mac", lib, m)
     return ("v14val", lib, m)
 
@@ -979,6 +1239,190 @@ def _judge_closed(ctx, d, moddir, gr, c, got, spec, libs, ticks, needed):
                         spec=spec[:8], model=live[0]["model"][:8], impl=repr(got[0][:8])))
 
 
+def _std_replay(d, moddir, prog):
+    return "LD_LIBRARY_PATH=%s CHIBI_IGNORE_SYSTEM_PATH=1 CHIBI_MODULE_PATH=%s:%s %s/chibi-scheme %s" % (d, os.path.join(d, "lib"), moddir, d, prog)
+
+
+def _judge_std(ctx, d, moddir, gr, c, byid, r, prog, libs, ticks, needed):
+    """second standard environments made at the end of a top-level program: a file whose first form imports a library is loaded into
+    (scheme-report-environment n).  SPEC: the library is the SAME instance the program imported (body not evaluated again: _check_bodies;
+    tick counters continue; ctr cells shared)."""
+    for k, sd in enumerate(c.get("std", [])):
+        text = " ".join(iset_str(i) for i in sd["isets"])
+        ids = [910000 + 10 * k] + ([910000 + 10 * k + 1] if sd["how"] == "sre7-twice" else [])
+        for j, cid in enumerate(ids):
+            ctx.count(1, key=("std", sd["how"], j, text.replace(gr["gid"], "G"), tuple(l.graph_sexp().replace(gr["gid"], "G") for l in gr["libs"])), nontrivial=True)
+            if cid not in byid:
+                ctx.violation("load:second-standard-environment:import-failed", input="%s: (import %s) loaded into a fresh (scheme-report-environment) at the end of %s" % (sd["how"], text, prog),
+                              expected="the import succeeds and delivers the instance of the library the program already uses",
+                              observed="rc=%s %s" % (r.returncode, (r.stderr or "")[-400:]), replay=_std_replay(d, moddir, prog))
+                return
+            try:
+                got = norm(parse_datum(byid[cid])[0])
+            except Exception as e:
+                ctx.broken("correspondence:unreadable-output", "top program %s printed %r (%s)" % (prog, byid[cid][:200], e))
+                return
+            if not isinstance(got, tuple) or len(got) != len(sd["probe"]):
+                ctx.broken("correspondence:std", "std section answered %r for %d names" % (repr(got)[:200], len(sd["probe"])))
+                return
+            for (nm, o, _), g in zip(sd["probe"], got):
+                _, lib, m = o.split(":", 2)
+                exp = _expect_value(libs, ticks, lib, m)
+                needed.add(lib)
+                ticked = _observe_tick(ticks, g)
+                if g == exp:
+                    continue
+                stale = isinstance(g, tuple) and len(g) >= 3 and g[0] == exp[0] and g[1] == exp[1] and g[0] in ("v14tick", "v14ctr")
+                if stale and ticked:
+                    ticks[lib] = g[2]
+                ctx.violation("load:second-standard-environment:" + ("state-not-shared" if stale else "wrong-binding"),
+                              input="%s: (import %s) loaded into a fresh (scheme-report-environment); name %s" % (sd["how"], text, nm),
+                              expected="%s (the one instance of library %s: every importer shares its state)" % (exp, lib), observed=repr(g),
+                              replay=_std_replay(d, moddir, prog))
+
+
+def _kw_class(o, libs):
+    if o in ("U", "A", "E"):
+        return o
+    _, lib, m = o.split(":", 2)
+    if lib == SB_TAG:
+        return m
+    if lib not in libs:
+        return "?"
+    return "macro" if m in MACRO_DEFS else "var"
+
+
+def _lit_expected(key, cls, name):
+    """R7RS 4.3.2 / 4.2.1 / 4.2.7 / 4.2.8: the keyword is recognised iff the identifier denotes the SAME BINDING as the keyword of
+    (scheme base), whatever its name.  None = not compared (the form is then not valid Scheme, or the probe was not meant for this class)."""
+    if key in ("ce", "ge"):
+        return {"else": "c14-else", "var": "c14-else", "U": "unbound"}.get(cls)
+    if key == "se":
+        return {"else": "c14-else"}.get(cls)
+    if key in ("ca", "ga"):
+        return {"=>": 7, "var": "c14-proc"}.get(cls)      # (an unbound variable whose value is not used need not raise)
+    if key == "sa":
+        return {"=>": (3,), "var": "c14-proc"}.get(cls)
+    if key == "el":
+        return (1, 2, 3) if cls == "..." else "c14-nomatch"
+    if key == "us":
+        return None if cls == "..." else ((name,) if cls == "_" else (1,))
+    if key == "uq":
+        return (1, 7) if cls == "unquote" else (1, (name, 7))
+    return None
+
+
+LIT_WHAT = {"ce": "cond-else", "ca": "cond-arrow", "se": "case-else", "sa": "case-arrow", "ge": "guard-else", "ga": "guard-arrow",
+            "el": "syntax-rules-ellipsis", "us": "syntax-rules-underscore", "uq": "quasiquote-unquote"}
+LIT_FORMS = {"ce": "(cond (#f 0) (<> 'c14-else))", "ca": "(cond ('(7) <> car) (#t 'c14-fall))", "se": "(case 3 ((1) 0) (<> 'c14-else))",
+             "sa": "(case 3 ((3) <> list))", "ge": "(guard (c14e (#f 0) (<> 'c14-else)) (raise 1))", "ga": "(guard (c14e ((list c14e) <> car)) (raise 7))",
+             "el": "(let-syntax ((c14m (syntax-rules () ((c14m c14v <>) '(c14v <>)) ((c14m . c14r) 'c14-nomatch)))) (c14m 1 2 3))",
+             "us": "(let-syntax ((c14m (syntax-rules () ((c14m <>) '(<>)) ((c14m . c14r) 'c14-nomatch)))) (c14m 1))", "uq": "(quasiquote (1 (<> 7)))"}
+
+
+def replay_lit(d, moddir, isets, form, top):
+    imports = " ".join(iset_str(i) for i in isets)
+    if top:
+        prog = "(import (scheme base) (scheme write) %s) (write %s)" % (imports, form)
+    else:
+        prog = "(import (scheme base) (scheme write) (scheme eval)) (write (eval '%s (environment '(scheme base) %s)))" % (form, " ".join("'" + iset_str(i) for i in isets))
+    return "echo \"%s\" > /var/tmp/c14-replay.scm; LD_LIBRARY_PATH=%s CHIBI_IGNORE_SYSTEM_PATH=1 CHIBI_MODULE_PATH=%s:%s %s/chibi-scheme /var/tmp/c14-replay.scm" % (
+        prog.replace('"', '\\"'), d, os.path.join(d, "lib"), moddir, d)
+
+
+def _judge_lit(ctx, d, moddir, gr, c, lp, got, spec_out, top):
+    """literal probes: oracle = SPEC origin of the name (Spec.program_origin over a graph whose library 0 is (scheme base) exporting the
+    auxiliary keywords) + R7RS 4.3.2: a literal matches iff the two identifiers denote the same binding.  The extracted model of
+    sexp_identifier_eq_op (IdEq.identifier_eq over the environments built by Env.env_import) is compared with both."""
+    isets = c["isets"]
+    text = " ".join(iset_str(i) for i in isets)
+    libs = {l.tag: l for l in gr["libs"]}
+    shape = tuple(l.graph_sexp().replace(gr["gid"], "G") for l in gr["libs"])
+    graph = [l.sld() for l in gr["libs"]]
+    spec = spec_out[lp["origin_ix"]].split(" ")
+    mlo = spec_out[lp["ml_ix"]].split(" ") if lp["mls"] else []
+    import_err = isinstance(got, tuple) and len(got) >= 1 and got[0] == "IMPORT-ERROR"
+    if "E" in spec or import_err:
+        if ("E" in spec) != import_err and not top:
+            ctx.violation("import:literal-case:" + ("import-accepted" if "E" in spec else "import-rejected"), input=text, graph=graph,
+                          expected="import error" if "E" in spec else "import succeeds", observed=repr(got)[:300], replay=replay_cmd(d, moddir, isets, lp["names"][0], top))
+        return
+    if len(spec) != len(lp["names"]) or (lp["mls"] and len(mlo) != len(lp["mls"])):
+        ctx.broken("spec-driver", "origin answered %r for the literal case %s" % (spec[:6], text))
+        return
+    if not isinstance(got, tuple) or len(got) != len(lp["plan"]):
+        ctx.broken("correspondence:literal", "driver answered %r for %d names" % (repr(got)[:300], len(lp["plan"])))
+        return
+    # the model of sexp_identifier_eq_op: per ml a line of tokens, per name three digits (lit else =>)
+    ideq = [x.split(" ") for x in spec_out[lp["ideq_ix"]].split(" | ")] if lp["mls"] else []
+    if lp["mls"] and (len(ideq) != len(lp["mls"]) or any(len(x) != len(lp["names"]) for x in ideq)):
+        ctx.broken("spec-driver", "ideq answered %r" % spec_out[lp["ideq_ix"]][:200])
+        ideq = []
+    # what each ml is: the defining library D and the origins of its literals inside D
+    mlinfo = []
+    for mo in mlo:
+        info = None
+        if mo.startswith("O:"):
+            _, dl, dm = mo.split(":", 2)
+            if dl in gr["inside_ix"] and dm in ("mlit", "elit"):
+                info = (dl, dm, spec_out[gr["inside_ix"][dl]].split(" "))
+        mlinfo.append(info)
+    ctx.cov["traces_validated_against_impl"] += 1
+    for ni, ((name, keys), o, res) in enumerate(zip(lp["plan"], spec, got)):
+        cls = _kw_class(o, libs)
+        if not isinstance(res, tuple) or len(res) != len(keys) + len(lp["mls"]):
+            ctx.broken("correspondence:literal", "driver answered %r for %s" % (repr(res)[:200], name))
+            continue
+        for key, g in zip(keys, res):
+            exp = _lit_expected(key, cls, name) if cls not in ("A", "E", "?") else None
+            ctx.count(1, key=("lit", top, shape, text.replace(gr["gid"], "G"), key, name), nontrivial=(exp is not None and cls in KW))
+            if exp is None or g == exp:
+                continue
+            ctx.violation("literal:%s:%s" % (LIT_WHAT[key], "not-recognised" if cls in KW and _lit_expected(key, "var", name) != exp else "wrongly-recognised"),
+                          input="%s ; program imports: %s" % (LIT_FORMS[key].replace("<>", sym(name)), text), name=name, graph=graph,
+                          expected="%r: %s denotes %s" % (exp, sym(name), {"U": "nothing (unbound)", "var": "a variable", "macro": "a macro"}.get(cls, "the auxiliary keyword %s of (scheme base) (R7RS 4.3.2: same binding, whatever the name)" % cls)),
+                          observed=repr(g), replay=replay_lit(d, moddir, isets, LIT_FORMS[key].replace("<>", sym(name)), top))
+        for mi, (ml, info, g) in enumerate(zip(lp["mls"], mlinfo, res[len(keys):])):
+            if info is None or cls in ("A", "E", "?"):
+                continue
+            dl, dm, inside = info
+            if len(inside) != 3 or "A" in inside or "E" in inside:
+                continue
+            which = "no"
+            for litname, lo in zip(("lit", "else", "=>"), inside):
+                if lo.startswith("O:") and lo == o:
+                    which = litname
+                    break
+            exp = ("v14lit", dl, which)
+            # model of the code
+            mtok = ideq[mi][ni] if ideq else None
+            mwhich = None
+            if mtok is not None and len(mtok) == 3:
+                mwhich = "no"
+                for litname, bit in zip(("lit", "else", "=>"), mtok):
+                    if bit == "1":
+                        mwhich = litname
+                        break
+            ctx.count(1, key=("litm", top, shape, text.replace(gr["gid"], "G"), dm, ml, name), nontrivial=(which != "no" or cls != "U"))
+            if mwhich is not None and mwhich != which:
+                # chibi (SEXP_USE_STRICT_TOPLEVEL_BINDINGS 0, eval.c:681-692) also equates two identifiers of the SAME NAME that denote
+                # different top-level VARIABLES (or nothing); the model has that rule, the SPEC does not.  Not compared.
+                if g == ("v14lit", dl, mwhich):
+                    ctx.cov["nonstrict_toplevel_literal"] = ctx.cov.get("nonstrict_toplevel_literal", 0) + 1
+                    continue
+                ctx.broken("model:identifier-eq-vs-spec", "(%s %s) with imports %s: IdEq.identifier_eq says %s, the SPEC (same binding) %s, chibi %r" % (ml, name, text, mwhich, which, g))
+                continue
+            if g == exp:
+                continue
+            ctx.violation("literal:%s:%s" % (dm, "not-recognised" if which != "no" else "wrongly-recognised"),
+                          input="(%s %s) ; program imports: %s" % (sym(ml), sym(name), text), name=name, graph=graph,
+                          expected="%r: %s is %s of library %s, whose literals (lit else =>) denote %s there; %s denotes %s" % (exp, ml, dm, dl, " ".join(inside), sym(name), o),
+                          observed=repr(g), replay=replay_lit(d, moddir, isets, "(%s %s)" % (sym(ml), sym(name)), top))
+    if not getattr(ctx, "_c14_lit_sampled", False):
+        ctx._c14_lit_sampled = True
+        ctx.sample(dict(kind="literal", imports=text, plan=[(n, ks) for n, ks in lp["plan"][:6]], mls=lp["mls"], spec=spec[:6], impl=repr(got[:6])[:600]))
+
+
 def _judge_inner(ctx, d, moddir, gr, c, got, model, spec):
     """got: normalised (OK value) / (ERR msg) from the real function; model: the translated code's answer"""
     key = c.get("text") or (c["kind"], c["a"], c["b"])
@@ -999,7 +1443,7 @@ def _judge_inner(ctx, d, moddir, gr, c, got, model, spec):
         if spec == "ERR" or spec.startswith("ERR "):
             exp = None
         else:
-            exp = [] if spec == "_" else [tuple("" if x == "||" else x for x in tok.split(">")) for tok in spec.split(" ")]
+            exp = [] if spec == "_" else [tuple("" if x == "||" else x for x in tok.split("\t")) for tok in spec.split(" ")]
         if exp is None and impl_ok:
             ctx.violation("resolve-import:accepts-invalid", input=c["text"], expected="error (unknown library, or `only` of an identifier not in the set)",
                           observed=repr(got)[:300], replay="(import (meta) (scheme write)) (write (%%resolve-import '%s))  ; module dir %s" % (c["text"], moddir))
